@@ -23,10 +23,10 @@ Ltac u32_goal := apply andb_true_intro; split; [apply Z.leb_le | apply Z.ltb_lt]
 
 (* ------------------------------------------------------------------ items *)
 Record icodec_ok {A} (c : icodec A) (e : endian) (wfA : A -> bool) : Prop := {
-  ok_wt : forall a off, wfA a = true -> 0 <= off -> off + zlen (ic_aux c e a) <= U32M ->
-          wt (ic_layout c) (ic_value c a off) = true;
   ok_size : 1 <= lsize (ic_layout c) < 4294967296;
   ok_len : forall a off, wfA a = true -> shape (ic_layout c) (ic_value c a off) = true;
+  ok_wt : forall a off, wfA a = true -> 0 <= off -> off + zlen (ic_aux c e a) <= U32M ->
+          wt (ic_layout c) (ic_value c a off) = true;
   ok_read : forall a pre post, wfA a = true -> 0 < zlen pre -> zlen pre + zlen (ic_aux c e a) <= U32M ->
             ic_read c e (pre ++ ic_aux c e a ++ post) (ic_value c a (zlen pre)) = Some (Some a)
 }.
